@@ -26,6 +26,7 @@ func init() {
 }
 
 func rulesC03(w *World, r *Report) {
+	w.ruleSizeTables(r, "C03.R13 a size-by-first-octet table agrees with the grammar")
 	// a decoder that keeps a numbering table from the previous message resolves
 	// the type / class / object references of a legal encoding to stale entries
 	includeIf(w, r, "C11", "the decoder's tables start empty for every message", 3, func(o *Obligation) bool {
